@@ -408,8 +408,14 @@ func (p *Parser) collectSpecs(
 		retrieved.mutex.Unlock()
 
 		if !p.NoDifferentVersionCheck {
+			// the package is part of the name a foreign file is imported under
+			// (`as foo.Api`): two imports that differ in it cannot both be honoured
 			appname1 := strings.ReplaceAll(fi.src.src.appname, " :: ", "::")
 			appname2 := strings.ReplaceAll(source.appname, " :: ", "::")
+			if fi.src.src.pkg != "" || source.pkg != "" {
+				appname1 = fi.src.src.pkg + "." + appname1
+				appname2 = source.pkg + "." + appname2
+			}
 			if appname1 != appname2 {
 				return syslutil.Exitf(ImportError, fmt.Sprintf(
 					"%#v imported as different appnames: '%v' and '%v'", filenameIndex, appname1, appname2,
